@@ -113,6 +113,8 @@ Vals ==
     tyDerivation |-> <<Ref(NameQN("prov", ProvNS, <<"Derivation">>))>>,
     \* two values of one attribute with the same text and different kinds
     sametext |-> <<[t |-> "int", v |-> "1"], [t |-> "str", v |-> "n1"]>>,
+    \* one text under two language tags
+    twolang |-> <<[t |-> "lang", v |-> "s1", lang |-> "en"], [t |-> "lang", v |-> "s1", lang |-> "fr"]>>,
     none |-> <<>> ]
 ValueClasses == DOMAIN Vals
 ExtraSet ==
@@ -205,7 +207,7 @@ ShapeActs(h) == UNION { ShapeActsK(h, k) : k \in KindSet }
 (* bare, values restricted to the claimed kinds                                               *)
 RdfSimple == {"attribution", "communication", "delegation", "influence", "specialization",
               "alternate", "membership"}
-RdfVals == {"none", "str", "empty", "emptylang", "int", "big", "true", "false", "dt", "uri", "qn", "lang", "two", "nasty"}
+RdfVals == {"none", "str", "empty", "emptylang", "twolang", "int", "big", "true", "false", "dt", "uri", "qn", "lang", "two", "nasty"}
 RdfExtras == {<<"other", v>> : v \in RdfVals}
              \cup {<<"role", "str">>, <<"label", "str">>, <<"label", "lang">>, <<"location", "str">>,
                    <<"location", "qn">>, <<"value", "int">>, <<"value", "two">>, <<"type", "qn">>, <<"type", "str">>}
@@ -241,6 +243,10 @@ RdfSecond ==
      formals |-> <<>>, extras |-> << <<NameQN("ex", A, <<"attr">>), [t |-> "int", v |-> "7"]>> >>],
     [op |-> "NewRec", h |-> "d1", k |-> "entity", via |-> "new_record", id |-> <<NamePL("ex", <<"r2">>)>>,
      formals |-> <<>>, extras |-> << <<NameQN("ex", A, <<"attr">>), [t |-> "str", v |-> "s1"]>> >>],
+    \* the subject ex:x of the first record declared as an activity without times (what a relation says
+    \* about it - a start time, say - is not said about the activity)
+    [op |-> "NewRec", h |-> "d1", k |-> "activity", via |-> "new_record", id |-> <<NamePL("ex", X)>>,
+     formals |-> <<>>, extras |-> <<>>],
     \* a record DECLARED under the name ex:y, which attribute values of the first record may mention
     [op |-> "NewRec", h |-> "d1", k |-> "entity", via |-> "new_record", id |-> <<NamePL("ex", Y)>>,
      formals |-> <<>>, extras |-> <<>>],
